@@ -94,6 +94,9 @@ func (in *Interp) addPC(c *Term) {
 	}
 	in.pc = append(in.pc, c)
 	in.pcSet[c] = true
+	if !noWires {
+		learnZeroBits(c)
+	}
 	if in.model != nil {
 		if mv, ok := in.evalUnderModel(c); !ok || !mv {
 			in.model = nil
